@@ -4,10 +4,11 @@ import json, sys
 pid = sys.argv[1]
 rnd = sys.argv[2] if len(sys.argv) > 2 else ""
 wt = "/tmp/seed%s_%s" % (rnd, pid)
-n1, n2 = {"": (1, 2), "2": (3, 4), "3": (5, 6), "4": (7, 8)}.get(rnd, (9, 10))
+n1, n2 = {"": (1, 2), "2": (3, 4), "3": (5, 6), "4": (7, 8), "5": (9, 10), "6": (11, 12)}.get(rnd, (9, 10))
 extra4 = " Prefer defects that need state carried across several steps to show (call frames, the value stack, jump tables filled by earlier builds, interning, growth of a table, an earlier token influencing a later one), or that appear on only one of the two data implementations, or only for values at a representation boundary (i32 limits, multi-byte characters, empty containers, u64::MAX symbols, subnormal floats). Avoid the single most obvious function for this property."
 extra5 = " Make each change look like ordinary maintenance (a refactoring, a performance shortcut, a clean-up of seemingly redundant code, a merged match arm, a hoisted computation, a changed default or constant) and choose a different crate for each of the two changes if the property allows. The change should alter behaviour only for a narrow class of inputs that a reviewer skimming the diff would not think of."
-extra = "" if rnd in ("", "2") else extra4 if rnd == "4" else extra5 if rnd == "5" else " Stay away from the single most obvious function for this property: choose sites at least one call level away from it (helpers, trait implementations in the data crates, iterators, conversions, table construction, bookkeeping of the builder or parser state), or interactions between two crates."
+extra6 = " Aim for a change that needs TWO things at once to show: for example two cooperating sites that each look fine alone, state left behind by an earlier operation (an earlier build into the same data object, an earlier token, an earlier list, a growth or compaction step, a previous call frame) combined with a particular later input, or a value at a representation boundary reaching a helper through an indirect path (through a concatenation, a slice, a nested expression, a derived context). Choose helpers, trait implementations, iterators, conversions, bookkeeping fields or default settings rather than the function a reader would look at first, and make the diff look like ordinary maintenance."
+extra = extra6 if rnd == "6" else "" if rnd in ("", "2") else extra4 if rnd == "4" else extra5 if rnd == "5" else " Stay away from the single most obvious function for this property: choose sites at least one call level away from it (helpers, trait implementations in the data crates, iterators, conversions, table construction, bookkeeping of the builder or parser state), or interactions between two crates."
 p = [json.loads(l) for l in open("/verif/properties.jsonl") if json.loads(l)["id"] == pid][0]
 print(f"""You are testing how robust a Rust code base is against subtle regressions. You work ONLY inside the scratch git worktree {wt} (a checkout of the repository garnish-lang/garnish-core: a scripting-language core with a hand-written lexer (compiler/src/lex), a precedence parser (compiler/src/parse), an instruction builder (compiler/src/build), a stack runtime (runtime/src) generic over a data trait (traits/src) and two data implementations (data/src: SimpleGarnishData in simple.rs/runtime.rs, BasicGarnishData under basic/)). Do not read or write anything under /verif or /repo, and do not use the network (run cargo with --offline).
 
